@@ -13,6 +13,7 @@ Facts emitted (all read from the CURRENT source text):
   byte_fast_needs_255                        the raw-byte fast paths additionally require maxval == 255
   cmyk_scale_by_prec                         the rescaled *_cmyk_row branches pass 2^prec-1 to rgb_to_cmyk
   word_hi_first                              wrppm.c PUTPPMSAMPLE writes (v >> 8) & 0xFF before v & 0xFF
+  max_alloc_chunk                            jmemsys.h MAX_ALLOC_CHUNK (alloc_sarray refuses longer rows)
   pf_layouts                                 per TJPF 0..11: (red, green, blue, alpha, pixelsize) offsets
 """
 import re
@@ -197,6 +198,15 @@ def main():
             except KeyError as e:
                 die("jmorecfg.h: macro %s not found" % e)
 
+    # ---- memory manager limit that bounds every row allocation (used by the BMP model)
+    msys = open(repo + "/src/jmemsys.h").read()
+    mm = re.search(r"#define MAX_ALLOC_CHUNK\s+(\d+)L", msys)
+    if not mm:
+        die("jmemsys.h: MAX_ALLOC_CHUNK not found")
+    mgr = nocom(func_body(open(repo + "/src/jmemmgr.c").read(), "alloc_sarray"))
+    if not re.search(r"if \(samplesperrow > MAX_ALLOC_CHUNK\) \{\s*out_of_memory\(cinfo, 9\);", mgr):
+        die("jmemmgr.c: alloc_sarray no longer refuses rows above MAX_ALLOC_CHUNK")
+
     out = []
     out.append("(* GENERATED by tools/gen_Pnm.py from src/rdppm.c, src/wrppm.c, src/jmorecfg.h, src/turbojpeg.c -- do not edit *)")
     out.append("From Coq Require Import List ZArith.")
@@ -212,6 +222,7 @@ def main():
     out.append("Definition byte_fast_needs_255 : bool := %s." % b(n255 == nfast))
     out.append("Definition cmyk_scale_by_prec : bool := %s." % b(ncm_prec == ncm))
     out.append("Definition word_hi_first : bool := %s." % b(hi_first))
+    out.append("Definition max_alloc_chunk : Z := %s.  (* jmemsys.h; alloc_sarray refuses longer rows *)" % mm.group(1))
     out.append("(* per TJPF 0..11: red, green, blue, alpha offsets (-1 = none) and pixel size *)")
     out.append("Definition pf_layouts : list (Z * Z * Z * Z * Z) := [")
     out.append(";\n".join("  (%d, %d, %d, %d, %d)" % l for l in layouts))
